@@ -22,3 +22,13 @@ int mvsim_lib_all_queues_at_base0(void) {
     if (g_envs[i].runnable_q.base != 0 || g_envs[i].runnable_q.top != 0) return 0;
   return 1;
 }
+
+/* flavour "mem": is sp on one of the workers' scheduler stacks (malloc'ed by myth_worker_start)? */
+int mvsim_lib_sched_stack_range(unsigned long sp, unsigned long *lo, unsigned long *hi) {
+  if (!g_envs) return 0;
+  for (int i = 0; i < g_attr.n_workers; i++) {
+    unsigned long b = (unsigned long)g_envs[i].sched.stack;
+    if (b && sp >= b && sp < b + MYTH_SCHED_STACK_SIZE) { *lo = b; *hi = b + MYTH_SCHED_STACK_SIZE; return 1; }
+  }
+  return 0;
+}
